@@ -368,6 +368,11 @@ impl<R: Read> ZeroCopyReader<R> {
     /// Ensure the buffer has at least `len` bytes available
     fn ensure_buffered(&mut self, len: usize) -> Result<()> {
         while self.buffer.available() < len && !self.eof {
+            // A buffer full of unread data cannot take more: fill_from would return 0,
+            // which is not end of stream (the request exceeds the capacity)
+            if self.buffer.available() == self.buffer.capacity() {
+                break;
+            }
             let bytes_read = self.buffer.fill_from(&mut self.inner)
                 .map_err(|e| ZiporaError::io_error(format!("Fill buffer failed: {}", e)))?;
             if bytes_read == 0 {
